@@ -47,6 +47,9 @@ func ite[T any](c bool, a, b T) T {
 func vassert(b bool)                {}
 func isSuffix[T any](a, b []T) bool { return true }
 func traceBytes(k int) []byte       { return nil }
+func cbcalls() int                  { return 0 }
+func cbArg[T any](k int) T          { var z T; return z }
+func cbRet(k int) bool              { return true }
 func ncalls() int                   { return 0 }
 
 // ---- big-endian readers (total: out-of-range reads are arbitrary in the logic, 0 at run time) ----
@@ -559,3 +562,14 @@ func lemmaReencodeAPP(raw []byte) (p, q ApplicationDefined, err, err2, err3 erro
 	err3 = q.Unmarshal(b)
 	return p, q, nil, nil, err3
 }
+
+// specPopcount16: number of set bits.
+func specPopcount16(x uint16) uint16 {
+	x = x&0x5555 + x>>1&0x5555
+	x = x&0x3333 + x>>2&0x3333
+	x = x&0x0F0F + x>>4&0x0F0F
+	return x&0x00FF + x>>8&0x00FF
+}
+
+// specBitIndex: the bit of the bitmap that stands for sequence number s of pair (id, bitmap): s-id-1 modulo 2^16.
+func specBitIndex(id, s uint16) uint16 { return s - id - 1 }
